@@ -1,14 +1,50 @@
 """C04 — server-level property decided on event histories (see simcheck.py / simgen.py)."""
 import simcheck, cligen
+from vlib import hexs, unhex
+
+
+def chunk_size_lines(chk):
+    """the chunk size line for sizes no test body can have: every power of two up to 2^63 and its neighbours, written by the
+    real encoder and by the model, judged by the grammar (hexadecimal size, optional extension, CR LF)"""
+    rng = chk.rng
+    sizes = set([0, 1, 9, 10, 15, 16, 255, 256, 4095, 65535, 65536])
+    for k in range(20, 64):
+        sizes.update([2 ** k - 1, 2 ** k, 2 ** k + 1])
+    sizes.update(rng.randrange(2 ** 63) for _ in range(40 if chk.tier == "quick" else 2000))
+    sizes = sorted(x for x in sizes if x < 2 ** 63)
+    cases = ["chunkhdr %d %s" % (n, hexs(rng.choice([b"", b"", b"x=1"]))) for n in sizes]
+    pairs, diffs = chk.correspond("h_pure", cases, label="chunk size lines")
+    for c, mo, io in pairs:
+        n = int(c.split(" ")[1]); ext = unhex(c.split(" ")[2]) if len(c.split(" ")) > 2 and c.split(" ")[2] != "-" else b""
+        want = b"%x" % n + (b"; " + ext if ext else b"") + b"\r\n"
+        try:
+            got = unhex(io)
+        except Exception:
+            got = None
+        if got != want:
+            chk.violation("the size line written for a chunk of %d bytes is %r (it must be %r)" % (n, got, want), {"case": c, "impl": io[:200]}, True, "chunk-size-line")
+        else:
+            chk.count_distinct(c)
+    for c, mo, io in diffs[:10]:
+        chk.broken.append("correspondence chunk size lines: case `%s` model=%s impl=%s" % (c, mo[:80], io[:80]))
 
 
 def run(chk):
     chk.prove("Properties_C04")
     simcheck.run_sim(chk, flavour=FLAVOUR)
     cligen.run(chk, flavour=FLAVOUR)
+    chunk_size_lines(chk)
 
 
 def replay(body):
+    case = body["replay"].get("case", "")
+    if case.startswith("chunkhdr"):
+        import vlib
+        hb, _ = vlib.build_harness("h_pure")
+        out, rc, err = vlib.run_cases(hb, [case])
+        n = int(case.split(" ")[1])
+        print("chunk of %d bytes: size line written %r" % (n, unhex(out[0]) if out else None))
+        return 0 if out and unhex(out[0]).startswith(b"%x" % n) and (unhex(out[0])[len(b"%x" % n):][:1] in (b";", b"\r")) else 1
     r = cligen.replay(body)
     return simcheck.replay(body) if r is None else r
 
